@@ -240,9 +240,13 @@ def lu_answer_valid(req, ans):
     if d != (-1 if inv % 2 else 1):
         return False, "d is not the sign of p"
     if not finite(m):
+        if det_exact(req["a"]) == 0:
+            return False, "decomposition of an exactly singular matrix reported as successful (non-finite factors)"
         return False, "non-finite factor"
     a = req["a"]
     M = [[frac(m[i * n + j]) for j in range(n)] for i in range(n)]
+    if any(M[p[k]][k] == 0 for k in range(n)):
+        return False, "an exactly null pivot is accepted (decomposition reported as successful)"
     worst = Fraction(0)
     for i in range(n):
         for j in range(n):
@@ -262,33 +266,33 @@ def lu_answer_valid(req, ans):
 
 
 def judge(req, impl, model):
-    """(holds, reason) : does the implementation's answer satisfy the property on this input?"""
+    """(holds, reason) : does the implementation's answer satisfy the property on this input?
+    An answer must be finite and backward stable (exact rational residual); a failure must be
+    justified.  In floating point an exactly singular matrix may legitimately get tiny non-null pivots
+    (rounding) and a nonsingular one may legitimately be rejected by a large user threshold `eps`
+    under another pivot order, so neither is counted as a failing input by itself: a failure counts
+    only when the threshold is negligible (eps <= 100*DBL_MIN, no denormal-scale entries), the matrix is
+    exactly nonsingular and the verified algorithm solves it."""
     op = req["op"]
     a = req["a"]
-    det = det_exact(a)
     ok_i = impl.startswith("ok")
     if not (ok_i or impl.startswith("fail")):
         return False, "no answer (%s)" % impl[:40]
-    if op in ("lu", "lut"):
-        if ok_i:
-            if det == 0:
-                return False, "decomposition of an exactly singular matrix reported as successful"
-            return lu_answer_valid(req, impl)
-        if det != 0 and model.startswith("ok"):
-            return False, "failure reported for a nonsingular matrix that the verified algorithm decomposes"
-        return True, ""
     if ok_i:
-        if det == 0:
-            return False, "exactly singular system (det = 0) : an answer is returned instead of a failure"
+        if op in ("lu", "lut"):
+            return lu_answer_valid(req, impl)
         xs = solutions_of(req, impl)
         be = backward_error(a, xs, req["b"])
         if be is None:
+            if det_exact(a) == 0:
+                return False, "exactly singular system (det = 0) : a non-finite answer is returned instead of a failure"
             return False, "non-finite / inconsistent solution returned without failure"
         if be > TOL:
             return False, "returned solution has relative backward error %.3g" % float(be)
         return True, ""
-    if det != 0 and model.startswith("ok"):
-        return False, "failure reported for a nonsingular system that the verified algorithm solves"
+    negligible_eps = req["eps"] <= EPS0 and all(v == 0 or abs(v) >= 1e-150 for row in a for v in row)
+    if negligible_eps and model.startswith("ok") and det_exact(a) != 0:
+        return False, "failure reported (negligible threshold) for a nonsingular system that the verified algorithm solves"
     return True, ""
 
 
